@@ -250,3 +250,51 @@ func VerifFileMissingBlock() {
 	}
 	verifrt.Reach("end")
 }
+
+// VerifFileKthLoadFails (C12): the k-th load request fails (k symbolic): a
+// sequential read returns exactly the bytes before the span of the block whose
+// load failed, then the injected error.
+func VerifFileKthLoadFails() {
+	w := verifrt.Param("w", 2)
+	K := verifrt.Param("k", 1)
+	maxL := verifrt.Param("maxlen", 5)
+	L := 2 + verifrt.Choose(maxL-1)
+	bf := buildFileFor(w, K, L)
+	defer bf.restore()
+	root, err := bf.ls.Load(ipld.LinkContext{}, bf.lnk, protoFor(bf.lnk))
+	verifrt.Assert(err == nil, "root-loads")
+	bf.st.Loads = nil
+	kth := verifrt.IntRange(0, len(bf.blocks)-2)
+	failedKey := ""
+	bf.st.FailLoad = func(key string, nth int) error {
+		if nth == kth {
+			failedKey = key
+			return errIO
+		}
+		return nil
+	}
+	node, err := file.NewUnixFSFile(nil, root, bf.ls)
+	verifrt.Assert(err == nil, "open-ok")
+	rs, _ := node.AsLargeBytes()
+	buf := make([]byte, 1+verifrt.Choose(2))
+	var got []byte
+	var rerr error
+	for iter := 0; ; iter++ {
+		verifrt.Assert(iter <= L+2, "read-terminates")
+		n, err := rs.Read(buf)
+		got = append(got, buf[:n]...)
+		if err != nil {
+			rerr = err
+			break
+		}
+	}
+	verifrt.Assert(errors.Is(rerr, errIO), "fault:load-error-reported")
+	lo := -1
+	for _, b := range bf.blocks {
+		if b.key == failedKey {
+			lo = b.lo
+		}
+	}
+	verifrt.Assert(lo >= 0 && len(got) == lo && verifrt.BytesEq(got, bf.content[:lo]), "fault:exact-prefix-before-missing-span")
+	verifrt.Reach("end")
+}
